@@ -140,6 +140,8 @@ def audit_jobs(tier, all_polys):
                 for h in (1, -2) if quick else (1, 3, -2):
                     pls = ["none", others[(pi + oi + ei + s) % 4]] if quick else ["none"] + others
                     for pl in pls:
+                        if quick and pl != "none" and (h == 1) == bool((pi + oi + ei + s) % 2):
+                            continue      # the placed variant takes one of the two heights in turn
                         jobs.append(("extrude2", {"polygon": pname, "orient": orient, "engine": eng, "height": h, "placement": pl}))
     # --- straight sweeps: any direction, several collinear segments, every engine: still the prism
     dirs = ([2, 3, 6], [-2, -3, -6], [0, 0, 7], [0, 0, -7], [7, 0, 0], [-7, 0, 0], [0, 7, 0], [0, -7, 0], [6, -2, -3])
@@ -154,8 +156,8 @@ def audit_jobs(tier, all_polys):
                         for eng in ([engs[(n + s) % 3]] if quick else engs):
                             if nseg == 1 and eng is None and orient == "ccw" and d in ([2, 3, 6], [0, 0, 7]) and pname in ("square", "ell", "square_hole"):
                                 continue   # the original grid
-                            if quick and (n + s) % 2:
-                                continue
+                            if quick and (n + n // 2 + n // 6 + n // 54 + s) % 3:
+                                continue      # a third of the grid, staggered so that every value of every axis stays in
                             jobs.append(("sweep_prism2", {"polygon": pname, "orient": orient, "direction": d, "nseg": nseg, "roll": roll, "engine": eng}))
     # --- closed sweep paths
     for pname in ("centered", "tri345", "square_hole"):
@@ -187,6 +189,17 @@ def audit_jobs(tier, all_polys):
     for e in (-14, -10, -7, 7, 14, 20) if quick else (-14, -12, -10, -9, -7, -3, 3, 7, 10, 14, 17, 20):
         for kind in ("box", "cylinder", "cone", "annulus", "uv_sphere", "capsule", "uv_sphere16", "capsule16", "torus", "icosphere", "revolve_partial", "extrude", "sweep"):
             jobs.append(("magnitude", {"kind": kind, "exp2": e}))
+    # --- aspect ratios: slender rods and flat discs (height = 2^e radii), and fine detail next to large faces
+    #     (a pin of radius 2^-d on the axis of a unit cylinder): a real face may be arbitrarily small against the
+    #     bounding box of the shape
+    for e in (-12, -6, 6, 12, 14, 16) if quick else (-16, -14, -12, -9, -6, -3, 3, 6, 9, 12, 13, 14, 16, 18):
+        for kind in ("cylinder", "cone", "annulus", "capsule", "torus", "Cylinder", "Capsule"):
+            for sec in (8, 32):
+                jobs.append(("aspect", {"kind": kind, "exp2": e, "sections": sec}))
+    for d in (6, 9, 11) if quick else (4, 6, 8, 9, 10, 11, 12):
+        for sec in (16, 64):
+            for where in ("bottom", "top", "both"):
+                jobs.append(("fine_detail", {"pin_exp2": -d, "sections": sec, "where": where}))
     # --- other entry points reaching the same code
     for ext in ([1, 2, 3], [4, 1, 2]):
         for lo in ([0, 0, 0], [-3, 2, 5]):
@@ -281,6 +294,31 @@ def make_audit_shape(tm, kind, p, polys, profiles, placements):
         if sub == "extrude":
             return c.extrude_polygon(poly, height=2 * k), -1, 1, {"shell": shell, "holes": holes, "height": 2}, k
         return c.sweep_polygon(poly, np.array([[0, 0, 0], [2, 3, 6]], dtype=float) * k), -1, 1, {"shell": shell, "holes": holes, "height": 7}, k
+    if kind == "aspect":
+        e, sec, sub = p["exp2"], p["sections"], p["kind"]
+        r, h = (1.0, 2.0 ** e) if e > 0 else (2.0 ** -e, 1.0)
+        P = tm.primitives
+        if sub == "cylinder":
+            m, genus = c.cylinder(radius=r, height=h, sections=sec), 0
+        elif sub == "cone":
+            m, genus = c.cone(radius=r, height=h, sections=sec), 0
+        elif sub == "annulus":
+            m, genus = c.annulus(r_min=r / 2, r_max=r, height=h, sections=sec), 1
+        elif sub == "capsule":
+            m, genus = c.capsule(height=h, radius=r, count=[sec, sec]), 0
+        elif sub == "torus":
+            m, genus = c.torus(max(r, h) * 2, min(r, h), major_sections=sec, minor_sections=8), 1
+        elif sub == "Cylinder":
+            m, genus = P.Cylinder(radius=r, height=h, sections=sec).to_mesh(), 0
+        else:
+            m, genus = P.Capsule(radius=r, height=h, sections=sec).to_mesh(), 0
+        # measures in units of r^2 h and r max(r, h) (judged for their sign only: the dimensions differ by 2^16)
+        vunit = max(r, h) * min(r, h) ** 2 if sub == "torus" else r * r * (h + r) if sub in ("capsule", "Capsule") else r * r * h
+        return m, genus, 1, None, (vunit, r * max(r, h))
+    if kind == "fine_detail":
+        d = 2.0 ** p["pin_exp2"]
+        prof = [[0, 0]] + ([[d, 0]] if p["where"] in ("bottom", "both") else []) + [[1, 0], [1, 1]] + ([[d, 1]] if p["where"] in ("top", "both") else []) + [[0, 1]]
+        return c.revolve(np.array(prof, dtype=float), sections=p["sections"]), 0, 1, None, 1.0
     if kind == "box_bounds":
         lo = np.array(p["lo"], dtype=float)
         e = p["extents"]
